@@ -58,6 +58,11 @@ var clockTargets = []bodyfacts.Target{
 	{Dir: "proxy/src/libs/toolkit-core/context-manager", Recv: "ContextManager", Func: "GetClock"},
 }
 
+// unit-carrying getters whose value the C18 models take as given (the lifetime of a stored request)
+var timingTargets = []bodyfacts.Target{
+	{Dir: engDir + "utils/environment", Recv: "", Func: "GetServerTimeout"},
+}
+
 func q(s string) string { return "\"" + strings.ReplaceAll(s, "\"", "\\\"") + "\"" }
 
 func main() {
@@ -169,6 +174,19 @@ func main() {
 		fmt.Fprintf(&sb, "  (%s, [%s])%s\n", q(of.Func), strings.Join(cs, ", "), sep)
 	}
 	fmt.Fprintf(&sb, "]\n\ndef orderMissing : List String := [%s]\n\n", strings.Join(orderMissing, ", "))
+	sb.WriteString("/-- signature and body of unit-carrying getters (harness/go/internal/bodyfacts) -/\ndef timingBodies : List (String × String) := [\n")
+	for i, t := range timingTargets {
+		body, err := bodyfacts.Body(*repo, t)
+		if err != nil {
+			body = "MISSING: " + err.Error()
+		}
+		sep := ","
+		if i == len(timingTargets)-1 {
+			sep = ""
+		}
+		fmt.Fprintf(&sb, "  (%s, %s)%s\n", q(t.Name()), q(strings.ReplaceAll(body, "\\", "\\\\")), sep)
+	}
+	sb.WriteString("]\n\n")
 	sb.WriteString("end LunarVerif.C18.Generated\n")
 	path := filepath.Join(*out, "C18Facts.lean")
 	old, _ := os.ReadFile(path)
